@@ -1,6 +1,7 @@
 (* Proofs/C08Wire.v — the three receivers consume the same bytes (plaintext streams),
    and the per-string core of the statement. *)
 From Coq Require Import List NArith ZArith Lia Bool.
+From Coq Require Import ZifyBool ZifyNat ZifyN.
 From Cedar Require Import Lib.Bytes gen.Consts Model.Msg Model.Privacy Model.AdWire.
 Import ListNotations.
 Local Open Scope N_scope.
@@ -236,4 +237,199 @@ Proof.
   destruct (t_get_string tc) as [td [tg| |]]; try discriminate.
   destruct (true && negb (lenN tg =? 0) && negb (is_type_name tg)); [discriminate|].
   inversion H1; inversion H2; subst. auto.
+Qed.
+
+(* ------------------------------------------------------------------ *)
+(* encrypted string mode: ensureData(n) + read n  vs  discard(n)       *)
+
+Definition same_rest (r r' : reader) : Prop :=
+  r_buf r = r_buf r' /\ r_in r = r_in r' /\ r_eom r = r_eom r' /\ r_fin r = r_fin r'.
+
+(* dropping m bytes, pulling as few frames as possible *)
+Fixpoint drop (fs : list mframe) (buf : bytes) (eom : bool) (m : N) : option (bytes * bool * list mframe) :=
+  if m <=? lenN buf then Some (skipn (N.to_nat m) buf, eom, fs)
+  else if eom then None
+  else match fs with
+       | [] => None
+       | (d, e) :: rest => drop rest d e (m - lenN buf)
+       end.
+
+Lemma short_of_N buf (n : N) : short_of buf (Z.of_N n) = (lenN buf <? n).
+Proof.
+  unfold short_of. destruct (Z.of_N n <=? 0)%Z eqn:E.
+  - assert (n = 0) by lia. subst. symmetry. apply N.ltb_ge. lia.
+  - rewrite N2Z.id. clear E. revert n. induction buf as [|b r IH]; intro n; cbn [len_lt].
+    + rewrite lenN_nil. reflexivity.
+    + rewrite lenN_cons. destruct (n =? 0) eqn:Z0; [lia|]. rewrite IH. lia.
+Qed.
+
+Lemma ensure_loop_drop fs : forall p buf eom m b' e' fs',
+  ensure_loop fs (p ++ buf) eom (Z.of_N (lenN p + m)) = Some (b', e', fs') ->
+  short_of b' (Z.of_N (lenN p + m)) = false ->
+  drop fs buf eom m = Some (skipn (N.to_nat (lenN p + m)) b', e', fs').
+Proof.
+  induction fs as [|[d e] rest IH]; intros p buf eom m b' e' fs' H S; cbn [ensure_loop drop] in *.
+  - rewrite short_of_N, lenN_app in H.
+    destruct ((lenN p + lenN buf <? lenN p + m) && negb eom) eqn:C; [discriminate|].
+    inversion H; subst. rewrite short_of_N, lenN_app in S.
+    replace (m <=? lenN buf) with true by lia.
+    f_equal. f_equal. f_equal. rewrite skipn_app.
+    rewrite lenN_spec. replace (N.to_nat (N.of_nat (length p) + m) - length p)%nat with (N.to_nat m) by lia.
+    replace (skipn (N.to_nat (N.of_nat (length p) + m)) p) with (@nil byte) by (symmetry; apply skipn_all2; lia). reflexivity.
+  - rewrite short_of_N, lenN_app in H.
+    destruct ((lenN p + lenN buf <? lenN p + m) && negb eom) eqn:C.
+    + apply andb_true_iff in C as [C1 C2]. apply negb_true_iff in C2. subst eom.
+      replace (m <=? lenN buf) with false by lia.
+      replace (lenN p + m) with (lenN (p ++ buf) + (m - lenN buf)) in H, S by (rewrite lenN_app; lia).
+      rewrite (IH (p ++ buf) d e (m - lenN buf) b' e' fs' H S).
+      f_equal. f_equal. f_equal. f_equal. rewrite lenN_app. lia.
+    + inversion H; subst. rewrite short_of_N, lenN_app in S.
+      replace (m <=? lenN buf) with true by lia.
+      f_equal. f_equal. f_equal. rewrite skipn_app.
+      rewrite lenN_spec. replace (N.to_nat (N.of_nat (length p) + m) - length p)%nat with (N.to_nat m) by lia.
+      replace (skipn (N.to_nat (N.of_nat (length p) + m)) p) with (@nil byte) by (symmetry; apply skipn_all2; lia). reflexivity.
+Qed.
+
+Definition mkr buf eom fin fs a : reader := {| r_buf := buf; r_eom := eom; r_fin := fin; r_in := fs; r_alloc := a |}.
+
+Lemma ensure_1_nonempty b buf eom fin fs a :
+  ensure (mkr (b :: buf) eom fin fs a) 1 = (mkr (b :: buf) eom fin fs a, MOk tt).
+Proof.
+  unfold ensure, mkr. cbn [r_in r_buf r_eom r_fin r_alloc].
+  assert (S : short_of (b :: buf) 1 = false) by (change 1%Z with (Z.of_N 1); rewrite short_of_N, lenN_cons; lia).
+  destruct fs as [|[d e] rest]; cbn [ensure_loop]; rewrite S; cbn [andb]; rewrite S; reflexivity.
+Qed.
+
+Lemma drop_ensure_some rest : forall d e m x, 0 < m -> drop rest d e m = Some x -> ensure_loop rest d e 1 <> None.
+Proof.
+  induction rest as [|[d2 e2] rest2 IH]; intros d e m x Hm H; cbn [drop ensure_loop] in *.
+  - destruct (m <=? lenN d) eqn:C; [|destruct e; discriminate].
+    assert (S : short_of d 1 = false) by (change 1%Z with (Z.of_N 1); rewrite short_of_N; lia).
+    rewrite S. discriminate.
+  - destruct (m <=? lenN d) eqn:C.
+    + assert (S : short_of d 1 = false) by (change 1%Z with (Z.of_N 1); rewrite short_of_N; lia).
+      rewrite S. discriminate.
+    + destruct e; [discriminate|].
+      destruct (short_of d 1) eqn:S; cbn [andb negb]; [|discriminate].
+      assert (d = []).
+      { change 1%Z with (Z.of_N 1) in S. rewrite short_of_N in S. destruct d; [reflexivity|rewrite lenN_cons in S; lia]. }
+      subst d. cbn [app]. rewrite lenN_nil, N.sub_0_r in H. apply (IH d2 e2 m x Hm H).
+Qed.
+
+Lemma discard_pull fuel d e rest fin a (m : Z) : (0 < m)%Z -> ensure_loop rest d e 1 <> None ->
+  discard_loop (S fuel) (mkr [] false fin ((d, e) :: rest) a) m = discard_loop (S fuel) (mkr d e fin rest a) m.
+Proof.
+  intros H Hs. cbn [discard_loop]. replace (m <=? 0)%Z with false by lia.
+  unfold ensure, mkr. cbn [r_in r_buf r_eom r_fin r_alloc ensure_loop].
+  change (short_of [] 1) with true. cbn [andb negb app].
+  destruct (ensure_loop rest d e 1) as [[[b1 e1] f1]|]; [reflexivity|congruence].
+Qed.
+
+Lemma discard_drop fs : forall buf eom fin a m fuel b2 e2 fs2,
+  (length fs + 2 <= fuel)%nat ->
+  drop fs buf eom m = Some (b2, e2, fs2) ->
+  discard_loop fuel (mkr buf eom fin fs a) (Z.of_N m) = (mkr b2 e2 fin fs2 a, MOk tt).
+Proof.
+  induction fs as [|[d e] rest IH]; intros buf eom fin a m fuel b2 e2 fs2 Hf H.
+  - (* no more frames: the buffer must hold everything *)
+    cbn [drop] in H. destruct (m <=? lenN buf) eqn:C; [|destruct eom; discriminate].
+    inversion H; subst. destruct fuel as [|f]; [cbn in Hf; lia|].
+    destruct (N.eq_dec m 0) as [->|Hm].
+    { cbn [discard_loop]. reflexivity. }
+    cbn [discard_loop]. replace (Z.of_N m <=? 0)%Z with false by lia.
+    destruct buf as [|b buf']; [rewrite lenN_nil in C; lia|].
+    rewrite ensure_1_nonempty. cbn [mkr r_buf].
+    replace (N.min (lenN (b :: buf')) (Z.to_N (Z.of_N m))) with m by lia.
+    replace (Z.of_N m - Z.of_N m)%Z with 0%Z by lia.
+    destruct f; reflexivity.
+  - cbn [drop] in H. destruct fuel as [|f]; [cbn in Hf; lia|].
+    destruct (m <=? lenN buf) eqn:C.
+    + inversion H; subst.
+      destruct (N.eq_dec m 0) as [->|Hm]; [reflexivity|].
+      cbn [discard_loop]. replace (Z.of_N m <=? 0)%Z with false by lia.
+      destruct buf as [|b buf']; [rewrite lenN_nil in C; lia|].
+      rewrite ensure_1_nonempty. cbn [mkr r_buf].
+      replace (N.min (lenN (b :: buf')) (Z.to_N (Z.of_N m))) with m by lia.
+      replace (Z.of_N m - Z.of_N m)%Z with 0%Z by lia.
+      destruct f; reflexivity.
+    + destruct eom; [discriminate|].
+      destruct buf as [|b buf'].
+      * rewrite lenN_nil, N.sub_0_r in H. rewrite lenN_nil in C.
+        assert (Hm : 0 < m) by lia.
+        rewrite discard_pull; [|lia|apply (drop_ensure_some _ _ _ _ _ Hm H)].
+        apply IH; [cbn [length] in Hf; lia|exact H].
+      * cbn [discard_loop]. replace (Z.of_N m <=? 0)%Z with false by lia.
+        rewrite ensure_1_nonempty. cbn [mkr r_buf].
+        replace (N.min (lenN (b :: buf')) (Z.to_N (Z.of_N m))) with (lenN (b :: buf')) by lia.
+        rewrite lenN_spec, Nat2N.id, skipn_all. unfold set_buf. cbn [r_buf r_eom r_fin r_in r_alloc].
+        fold (mkr [] false fin ((d, e) :: rest) a).
+        replace (Z.of_N m - Z.of_N (N.of_nat (length (b :: buf'))))%Z with (Z.of_N (m - lenN (b :: buf')))
+          by (rewrite lenN_spec in *; lia).
+        destruct f as [|f']; [cbn [length] in Hf; lia|].
+        assert (Hm : 0 < m - lenN (b :: buf')) by lia.
+        change (discard_loop (S f') (mkr [] false fin ((d, e) :: rest) a) (Z.of_N (m - lenN (b :: buf')))
+                = (mkr b2 e2 fin fs2 a, MOk tt)).
+        rewrite discard_pull; [|rewrite lenN_spec in *; lia|apply (drop_ensure_some _ _ _ _ _ Hm H)].
+        apply IH; [cbn [length] in Hf; lia|exact H].
+Qed.
+
+Lemma strip_string_len d : lenN (strip_string d) = 0 \/ lenN (strip_string d) + 1 = lenN d \/ lenN (strip_string d) = lenN d.
+Proof.
+  unfold strip_string. destruct d as [|b t]; [left; reflexivity|].
+  destruct (byte_eqb b (n2b BinNullChar)); [left; reflexivity|].
+  destruct (rev' (b :: t)) as [|l r] eqn:E; [right; right; reflexivity|].
+  destruct (byte_eqb l x00); [|right; right; reflexivity].
+  right; left. unfold rev' in *. rewrite <- rev_alt in *.
+  rewrite !lenN_spec, rev_length.
+  apply (f_equal (@length byte)) in E. rewrite rev_length in E. cbn [length] in *. lia.
+Qed.
+
+Lemma marker_len : lenN secret_marker = 3. Proof. reflexivity. Qed.
+
+Lemma ensure_ok_inv ra len rb : ensure ra len = (rb, MOk tt) ->
+  exists b' e' fs', ensure_loop (r_in ra) (r_buf ra) (r_eom ra) len = Some (b', e', fs') /\
+     short_of b' len = false /\ rb = mkr b' e' (r_fin ra) fs' (r_alloc ra).
+Proof.
+  unfold ensure. destruct (ensure_loop _ _ _ _) as [[[b' e'] fs']|]; [|discriminate].
+  destruct (short_of b' len) eqn:S; [discriminate|].
+  intro H; inversion H; subst. exists b', e', fs'. auto.
+Qed.
+
+(* encrypted string mode, ANY reader: whenever GetString succeeds, both skips succeed, leave the same
+   bytes unread (same buffer, same frames, same flags), and the marker-aware one reports correctly *)
+Lemma lstr_same r r1 s : get_string true r = (r1, MOk s) ->
+  (exists r1', skip_string_marker true r = (r1', MOk (bytes_eqb s secret_marker)) /\ same_rest r1 r1') /\
+  (exists r1'', skip_string true r = (r1'', MOk tt) /\ same_rest r1 r1'').
+Proof.
+  unfold get_string, get_lstr, skip_string_marker, skip_string.
+  destruct (get_int32 r) as [ra [len| |]]; try discriminate.
+  destruct (len <? 0)%Z eqn:Neg; [discriminate|].
+  destruct (ensure ra len) as [rb [[]| |]] eqn:E; try discriminate.
+  destruct (ensure_ok_inv _ _ _ E) as (b' & e' & fs' & EL & Sh & ->).
+  unfold take. intro H; inversion H; subst r1 s; clear H.
+  cbn [r_buf mkr].
+  assert (Hlen : len = Z.of_N (Z.to_N len)) by lia.
+  set (m := Z.to_N len) in *.
+  (* the discard path *)
+  assert (D : discard ra len = (mkr (skipn (N.to_nat m) b') e' (r_fin ra) fs' (r_alloc ra), MOk tt)).
+  { unfold discard. destruct ra as [buf eom fin fs a]. cbn [r_in r_buf r_eom r_fin r_alloc] in *.
+    fold (mkr buf eom fin fs a). rewrite Hlen.
+    apply discard_drop; [lia|].
+    rewrite Hlen in EL, Sh.
+    apply (ensure_loop_drop fs [] buf eom m b' e' fs' EL Sh). }
+  assert (SR : forall x, same_rest (set_buf (add_alloc (mkr b' e' (r_fin ra) fs' (r_alloc ra)) m) x)
+                                   (mkr x e' (r_fin ra) fs' (r_alloc ra))).
+  { intro x. repeat split. }
+  split.
+  - destruct ((0 <? len) && (len <=? Z.of_N (lenN secret_marker) + 1))%Z eqn:Small.
+    + eexists. split; [reflexivity|]. repeat split.
+    + rewrite D. eexists. split; [|apply SR]. f_equal. f_equal.
+      symmetry. destruct (bytes_eqb (strip_string (firstn (N.to_nat m) b')) secret_marker) eqn:Eq; [|reflexivity].
+      exfalso. apply bytes_eqb_eq in Eq.
+      pose proof (strip_string_len (firstn (N.to_nat m) b')) as L. rewrite Eq, marker_len in L.
+      rewrite Hlen, short_of_N in Sh.
+      assert (Lf : lenN (firstn (N.to_nat m) b') = m).
+      { rewrite !lenN_spec, firstn_length. rewrite lenN_spec in Sh. lia. }
+      rewrite Lf in L. rewrite marker_len in Small. lia.
+  - rewrite D. eexists. split; [reflexivity|apply SR].
 Qed.
